@@ -71,6 +71,7 @@ int Sched_futex_wait(uint32_t *f, unsigned int val, struct timespec *timeout) {
   return nondet_int();
 }
 
+int g_errno; int *vf_errno_location(void) { return &g_errno; }
 /* ---- ghost clock for wait_for_slow: CLOCK_MONOTONIC as (sec, nsec), non-decreasing ---- */
 long g_sec, g_nsec; _Bool g_clock_failed; unsigned g_clock_reads; long g_first_sec, g_first_nsec, g_timeout0;
 int vf_clock_gettime(int clk, struct timespec *ts) {
@@ -79,7 +80,7 @@ int vf_clock_gettime(int clk, struct timespec *ts) {
   __CPROVER_assume(n >= 0 && n < 1000000000L && s < (1L << C08_SEC_BITS) && (s > g_sec || (s == g_sec && n >= g_nsec)));
   g_sec = s; g_nsec = n;
   if (g_clock_reads == 0) { g_first_sec = s; g_first_nsec = n; }
-  g_clock_reads++;
+  if (g_clock_reads < 2) g_clock_reads++;   /* saturating: only "none / one / at least two" matters */
   ts->tv_sec = s; ts->tv_nsec = n;
   return 0;
 }
@@ -108,13 +109,16 @@ __CPROVER_requires(FC_SHAPE(c) && g_env_on && (*g_w & ~READY) < (1U << 30) && ti
 __CPROVER_requires(g_sec >= 0 && g_sec < (1L << 32) && g_nsec >= 0 && g_nsec < 1000000000L && g_clock_reads == 0 && !g_clock_failed)
 __CPROVER_assigns(*g_w, g_ready_seen, g_sleeps, g_sec, g_nsec, g_clock_reads, g_first_sec, g_first_nsec, g_clock_failed)
 __CPROVER_ensures(__CPROVER_return_value ==> (g_ready_seen && (*g_w & READY)))
+/* structural half of "false only after the time has elapsed": giving up is decided by a clock reading taken after the sleep
+ * (or by a failing clock), never by the sleep's own return value */
+__CPROVER_ensures(!__CPROVER_return_value ==> (g_clock_failed || g_clock_reads >= 2))
 ;
 //@loop FC_wait_for_slow 1
 //@  __CPROVER_assigns(value, timeout_ns, spec, *g_w, g_ready_seen, g_sleeps, g_sec, g_nsec, g_clock_reads, g_clock_failed, g_first_sec, g_first_nsec)
 //@  __CPROVER_loop_invariant(((value & READY) != 0) == g_ready_seen)
 //@  __CPROVER_loop_invariant(!g_ready_seen || (*g_w & READY))
 //@  __CPROVER_loop_invariant(g_ready_seen || ((value & ~READY) >= 1 && (*g_w & READY || (*g_w & ~READY) >= 1)))
-//@  __CPROVER_loop_invariant(g_sec >= 0 && g_sec < (1L << 32) && g_nsec >= 0 && g_nsec < 1000000000L)
+//@  __CPROVER_loop_invariant(g_sec >= 0 && g_sec < (1L << 32) && g_nsec >= 0 && g_nsec < 1000000000L && !g_clock_failed && g_clock_reads >= 1)
 //@end
 
 /* get(): returns the value only after READY was observed */
@@ -155,4 +159,28 @@ void h_set_value(void) {
   __CPROVER_assert(b_deleted == b_ncb, "K1 C08.set_value every callback node is deleted exactly once");
   __CPROVER_assert(0, "VF_VACUITY_TWIN lemma reachable (must fail)");
 }
+
+/* ---- Promise::set_value: the context's set_value runs callbacks and wakes waiters, any of which may drop the last other owner
+ * of the shared context (for instance by destroying the promise itself).  Obligation: the call is made under a reference this
+ * call holds itself (a shared_ptr copy created in the call and alive across it).  std::shared_ptr is a contract stub: the first
+ * 8 bytes are the pointer, copies made / destroyed inside the call are counted. */
+int g_own_refs;
+#define SPP(p) (*(struct FC **)(p))
+_Bool CtxPtrB_operator_bool(struct CtxPtrB *p) { return SPP(p) != 0; }
+struct FC *CtxPtrA_op_arrow(struct CtxPtrA *p) { __CPROVER_assert(SPP(p) != 0, "K5 C08.promise no null context is dereferenced"); return SPP(p); }
+void CtxPtr_ctor_1(struct CtxPtr *dst, struct CtxPtr *src) { SPP(dst) = SPP(src); if (SPP(src) != 0) g_own_refs++; }
+void CtxPtr_dtor(struct CtxPtr *p) { if (SPP(p) != 0) g_own_refs--; SPP(p) = 0; }
+unsigned g_fc_calls;
+void FC_set_value__int_void(struct FC *c, int *v)
+#ifndef VF_ENFORCE_FC_set_value__int_void
+__CPROVER_requires(g_own_refs >= 1)      /* asserted at the call site in Promise::set_value */
+__CPROVER_assigns(g_fc_calls)
+__CPROVER_ensures(g_fc_calls == __CPROVER_old(g_fc_calls) + 1)
+#endif
+;
+void Promise_set_value__int(struct Promise *p, int *v)
+__CPROVER_requires(__CPROVER_is_fresh(p, sizeof(*p)) && __CPROVER_is_fresh(v, sizeof(int)) && (SPP(&p->_context) == 0 || __CPROVER_is_fresh(SPP(&p->_context), sizeof(struct FC))) && g_own_refs == 0 && g_fc_calls == 0)
+__CPROVER_assigns(g_own_refs, g_fc_calls)
+__CPROVER_ensures(g_own_refs == 0 && g_fc_calls <= 1)
+;
 #endif
